@@ -77,6 +77,13 @@ theorem sort_roundtrip (v : String) (sf : SortField) (h : parseSort v = .ok sf) 
     · rw [if_neg hc] at h
       cases h
 
+/-- The same for a field of a parsed request, whose column has been resolved in the meantime
+    (`SetSortColumns`): the printed text does not depend on the resolved column, and reading it back
+    gives the field the parser built in the first place (the column is resolved again afterwards). -/
+theorem sort_roundtrip_resolved (v : String) (sf : SortField) (h : parseSort v = .ok sf) (c : Option Column) :
+    printSort { sf with col := c } = printSort sf ∧ parseSort (printSort { sf with col := c }) = .ok sf :=
+  ⟨rfl, sort_roundtrip v sf h⟩
+
 /-- Component-wise reading of the round trip: the field read back from the printed text has the
     same column name, the same direction and the same custom variable name as the original. -/
 theorem sort_roundtrip_fields (v : String) (sf : SortField) (h : parseSort v = .ok sf) :
